@@ -539,3 +539,15 @@ V("S-ynew-dropped", ["C04"], "factor_analysis", "                X_new.append(X[
 V("S-scatter-subtracted", ["C14"], "wccn", "            Sw += X_l_mu_l.T @ X_l_mu_l", "            Sw -= X_l_mu_l.T @ X_l_mu_l", "per-class scatter subtracted")
 V("S-sigma-times-n", ["C10"], "ivector", "machine.sigma = (stats.snormij - fnorm_sigma_wij_tt) / stats.nij[:, None]", "machine.sigma = (stats.snormij - fnorm_sigma_wij_tt) * stats.nij[:, None]", "covariance update multiplied by the counts")
 V("S-acc-divided", ["C10"], "ivector", "stats.nij_sigma_wij2 = stats.nij_sigma_wij2 + Nij[:, None, None] * sigma_w_ij2[None, :, :]", "stats.nij_sigma_wij2 = stats.nij_sigma_wij2 + Nij[:, None, None] / sigma_w_ij2[None, :, :]", "N / E[ww'] accumulated", kind="skip")
+
+# ----------------------------------------------------------------------------- survivors of the second generic sweep (seed 2)
+V("S2-wblend-div", ["C05"], "gmm", "(1 - alpha) * machine.ubm.weights", "(1 - alpha) / machine.ubm.weights", "prior weights divide instead of multiply in the MAP weight blend")
+V("S2-mapvar-fallback-sign", ["C05"], "gmm", "prior_norm_variances = machine.ubm.variances + machine.ubm.means - np.power(machine.means, 2)", "prior_norm_variances = machine.ubm.variances + machine.ubm.means + np.power(machine.means, 2)", "squared adapted mean added in the no-evidence fallback of the MAP variances")
+V("S2-prec-div-n", ["C07", "C09", "C11"], "factor_analysis", "UcT / sigma_c @ Uc * n_i_c", "UcT / sigma_c @ Uc / n_i_c", "pooled precision divides by the counts")
+V("S2-acc-div", ["C10"], "ivector", "Nij[:, None, None] * sigma_w_ij2[None, :, :]", "Nij[:, None, None] / sigma_w_ij2[None, :, :]", "N / E[ww'] accumulated")
+V("S2-accD-subtracted", ["C09"], "factor_analysis", "acc_D_A2 += fn_z_i * latent_z[y_i]", "acc_D_A2 -= fn_z_i * latent_z[y_i]", "per-class D accumulator subtracted")
+V("S2-class-select-ne", ["C07", "C09", "C12"], "factor_analysis", "np.array(y) == i", "np.array(y) != i", "per-class selection returns every other class's statistics")
+V("S2-T-not-stored", ["C10"], "ivector", "    machine.T = X.transpose((0, 2, 1))\n", "    pass\n", "i-vector M-step never stores the new T")
+V("S2-sigma-not-stored", ["C10"], "ivector", "        machine.sigma = (stats.snormij - fnorm_sigma_wij_tt) / stats.nij[:, None]\n", "        pass\n", "i-vector M-step never stores the new sigma")
+V("S2-unwrap-inverted", ["C08", "C11"], "linear_scoring", "ubm.trainer == 'map'", "ubm.trainer != 'map'", "MAP -> prior replacement executed for ML machines only")
+V("S2-unwrap-else-form", ["C08"], "linear_scoring", "    if ubm.trainer == 'map':\n        ubm = ubm.ubm\n", "    if ubm.trainer != 'map':\n        pass\n    else:\n        ubm = ubm.ubm\n", "same replacement written with the negated test", kind="benign")
